@@ -213,3 +213,30 @@ func main() {
 		os.Exit(2)
 	}
 }
+
+type cmdResult struct {
+	stdout, stderr []byte
+	timedOut       bool
+}
+
+// startCmd runs exe with args, feeding stdin, with a timeout.
+func startCmd(exe string, args, env []string, stdin []byte, timeout time.Duration) cmdResult {
+	c := exec.Command(exe, args...)
+	c.Env = append(os.Environ(), env...)
+	c.Stdin = strings.NewReader(string(stdin))
+	var so, se strings.Builder
+	c.Stdout, c.Stderr = &so, &se
+	if err := c.Start(); err != nil {
+		return cmdResult{stderr: []byte(err.Error())}
+	}
+	done := make(chan struct{})
+	go func() { c.Wait(); close(done) }()
+	select {
+	case <-done:
+		return cmdResult{stdout: []byte(so.String()), stderr: []byte(se.String())}
+	case <-time.After(timeout):
+		c.Process.Kill()
+		<-done
+		return cmdResult{stdout: []byte(so.String()), stderr: []byte(se.String()), timedOut: true}
+	}
+}
